@@ -4,12 +4,13 @@ CONSTANTS
   SHAPES <- Q_SHAPES
   RANKS = {1, 3}
   EPSEXP = {8, 4}
-  GUESS = {"none", "fresh", "reused"}
+  GUESS = {"none", "fresh", "big", "reused"}
   SEEDS = {1, 2}
   BACKENDS = {"py"}
   PREC = {}
   MAXFULL = {}
   SOLVER = {}
+  SCALES = {"unit", "bigcore", "small"}
   SYSCLS = {}
 INVARIANT WellTyped
 CHECK_DEADLOCK FALSE
